@@ -8,8 +8,8 @@ import ClientGoVerif.Model.AggLock
     reset v=<ids>                                  new case (which keys hold a committed value is the harness's business)
     start | retry | cancel | done | rollback | commit
     pne <id>
-    lock <ids> <opts ⊆ rce | -> fu=<n> exp=<0|1> err=<-|wc|ke|dl|to|other> ans=<id:(A|N)(+|-)<lwc>,…>
-    put <id> | del <id> | olock <id> | orel | age   environment only: the model sees their effect through later answers
+    lock <ids> <opts ⊆ rcen | -> fu=<n> exp=<0|1> err=<-|wc|ke|dl|to|other> ans=<id:(A|N)(+|-)<lwc>,…>
+    ts | put <id> | del <id> | olock <id> | orel | age   environment only: the model sees their effect through later answers
     chk-noleak                                      property op: ok / FAIL leak <ids>
 -/
 open CGV CGV.AggLock
@@ -58,7 +58,8 @@ def parseIds (s : String) : Option (List Key) :=
 
 def parseOpts (s : String) : Option Opts :=
   if s == "-" then some {} else
-  if s.toList.all (fun c => c == 'r' || c == 'c' || c == 'e') then
+  -- `n` (no-wait) only concerns the store
+  if s.toList.all (fun c => c == 'r' || c == 'c' || c == 'e' || c == 'n') then
     some { rv := s.toList.contains 'r', ce := s.toList.contains 'c', loie := s.toList.contains 'e' }
   else none
 
@@ -128,6 +129,7 @@ def stepLine (d : D) (line : String) : D × String :=
   | ["olock", _] => (d, "env")
   | ["orel"] => (d, "env")
   | ["age"] => (d, "env")
+  | ["ts"] => (d, "env")
   | ["chk-noleak"] => (d, leakStr d.s)
   | _ => (d, "bad-op")
 
